@@ -253,7 +253,11 @@ func C11(e *Env) {
 	c11Creation(e)
 	c11Unmarshal(e)
 	ruleE(e, "R11.4")
+	errorFlattenRule(e, "R11.10")
+	r.Rule("R11.10", "report every violation separately: no module code formats an error value into the text of another (fmt.Errorf/Sprintf/Sprint with an error operand, err.Error() outside panic); the only wrapper is grouperror.Prefix, which keeps a group of violations a group", 1)
 	c11Sanitise(e)
+	c03ToExpr(e)
+	r.Rule("R03.2", "toExpr strips exactly the two delimiters, in runes (shared with C03): otherwise a documented %…% token with non-ASCII text is rejected as unexpected", 1)
 	mergeLiteralRule(e, "mergeService", "Service")
 	r.Rule("R09.1", "the todo flag (which exempts a service from validation) is merged like every scalar attribute, later non-nil wins (shared with C09)", 11)
 	r.Rule("R09.1c", "behaviour classes of the merge combinators (shared with C09)", 2)
